@@ -78,7 +78,48 @@ def py_around_guards(doc, step):
         return py_guard(doc, f, t, inserted)[0]
 
     sts, sd = outcome(sides)
-    return fit, (bool(sd) if sts == "ok" else True)
+    stc, cl = outcome(lambda: py_gap_clean(doc, f, t, gf, gt))
+    return fit, (bool(sd) if sts == "ok" else True), (bool(cl) if stc == "ok" else False)
+
+
+def _seam_free(prev, nxt):
+    return not (prev is not None and nxt is not None and prev.is_text and nxt.is_text and prev.same_markup(nxt))
+
+
+def _gap_end(prev, rest, T):
+    for ch in rest:
+        if T == 0:
+            return _seam_free(prev, ch)
+        if ch.node_size <= T:
+            T -= ch.node_size
+        else:
+            return False
+    return T == 0
+
+
+def py_gap_clean(doc, f, t, gf, gt):
+    """the gap lies between complete children of the node it sits in (seen in the old slice doc.slice(f, t)) and the
+    children around it are not two texts with the same marks"""
+    old = doc.slice(f, t)
+    frag, F, T = old.content, gf - f + old.open_start, gt - f + old.open_start
+    while True:
+        kids = [frag.child(i) for i in range(frag.child_count)]
+        pos, prev, down = 0, None, None
+        for i, ch in enumerate(kids):
+            if F == pos:
+                return _gap_end(prev, kids[i:], T - pos)
+            if pos + ch.node_size <= F:
+                prev, pos = ch, pos + ch.node_size
+                continue
+            if ch.is_leaf:      # text or leaf: the position is inside it
+                return False
+            if not (T - pos < ch.node_size):
+                return False
+            down = (ch.content, F - pos - 1, T - pos - 1)
+            break
+        if down is None:
+            return F == pos and T == pos
+        frag, F, T = down
 
 
 AROUND_SPEC = {"nodes": {
@@ -142,16 +183,20 @@ def compare(ctx, replay, payload, out):
 
 
 def compare_around(ctx, replay, payload, out):
-    (pfit, pside), valid, impl_ok, detail = payload
+    (pfit, pside, pclean), valid, impl_ok, detail = payload
     if "ok" not in out:
-        ctx.mismatch("aroundGuards", replay, [pfit, pside], out)
+        ctx.mismatch("aroundGuards", replay, [pfit, pside, pclean], out)
         return
-    mfit, mside = bool(out["ok"][0]), bool(out["ok"][1])
+    mfit, mside, mclean = bool(out["ok"][0]), bool(out["ok"][1]), bool(out["ok"][2])
     ctx.count("around-fit:" + ("true" if mfit else "false"))
     ctx.count("around-sides:" + ("true" if mside else "false"))
-    if [mfit, mside] != [pfit, pside]:
-        ctx.mismatch("aroundGuards", replay, [pfit, pside], [mfit, mside])
+    ctx.count("around-clean:" + ("true" if mclean else "false"))
+    if [mfit, mside, mclean] != [pfit, pside, pclean]:
+        ctx.mismatch("aroundGuards", replay, [pfit, pside, pclean], [mfit, mside, mclean])
         return
+    if valid and mclean and not mfit:
+        # theorem gapFitsBack_of_clean
+        ctx.mismatch("gapFitsBack_of_clean", replay, "clean gap => it fits back", "rejected")
     structure = detail is not None and "Structure" in str(detail)
     if valid and mfit and mside and not impl_ok and not structure:
         # all guards of replaceAround_undo other than the structure check hold, the failure is not the structure check
